@@ -184,6 +184,28 @@ def check_lmeasure(H, ref, ref_labels, est, est_labels, frame_size, beta=1.0):
     return _cmp_scores('hierarchy.lmeasure', inp, v, (p, r, fmeasure(p, r, beta)))
 
 
+def check_evaluate(H, ref, ref_labels, est, est_labels, window, frame_size, beta=1.0):
+    """evaluate(..., window=w): the T entries are the windowed triple definition, the L entries the definition with NO window"""
+    if rejected(window, frame_size):
+        return None
+    inp = {'ref': lists(ref), 'ref_labels': ref_labels, 'est': lists(est), 'est_labels': est_labels, 'window': window,
+           'frame_size': frame_size, 'beta': beta}
+    st, v = call(H.evaluate, arr(ref), ref_labels, arr(est), est_labels, window=window, frame_size=frame_size, beta=beta)
+    if st != 'ok':
+        return None      # span conventions of evaluate() are C14's business
+    wf = window_frames(window, frame_size)
+    R, E = brute_lca(ref, frame_size), brute_lca(est, frame_size)
+    for tag, tr in (('reduced', False), ('full', True)):
+        r, p = brute_gauc(R, E, tr, wf), brute_gauc(E, R, tr, wf)
+        f = _cmp_scores('hierarchy.evaluate[T %s]' % tag, inp, (v['T-Precision ' + tag], v['T-Recall ' + tag], v['T-Measure ' + tag]),
+                        (p, r, fmeasure(p, r, beta)))
+        if f:
+            return f
+    R, E = brute_meet(ref, ref_labels, frame_size), brute_meet(est, est_labels, frame_size)
+    r, p = brute_gauc(R, E, True, None), brute_gauc(E, R, True, None)
+    return _cmp_scores('hierarchy.evaluate[L]', inp, (v['L-Precision'], v['L-Recall'], v['L-Measure']), (p, r, fmeasure(p, r, beta)))
+
+
 def check_self(H, hier, labels, transitive, window, frame_size):
     if rejected(window, frame_size):
         return None
@@ -331,6 +353,7 @@ def search(H, rng, budget=300):
             note(check_self(H, ref, rl, transitive, window, fs))
             note(check_swap(H, ref, est, transitive, window, fs))
         note(check_lmeasure(H, ref, rl, est, el, fs, beta))
+        note(check_evaluate(H, ref, rl, est, el, rng.choice([None, 2 * fs, 3 * fs, 5 * fs, 8 * fs]), fs, beta))
         note(check_swap_l(H, ref, rl, est, el, fs))
         note(check_params(H, ref, est, window, fs))
         note(check_params(H, ref, est, window, rng.choice([0.0, -fs])))
